@@ -167,14 +167,14 @@ def check_property(pid, tier):
     if not obls:
         raise Undecided("no obligations registered for %s" % pid)
     jobs = int(os.environ.get("VERIF_JOBS", "14"))
-    feats = ["std"]
-    if pid == "C20":
-        feats = ["std", "alloc"]
     groups = {}
     for o in obls:
-        for f in feats:
-            if f in o["features"]:
-                groups.setdefault((o["crate"], f, tuple(o["kani_flags"])), []).append(o)
+        if pid == "C20":
+            fs = o["features"] if len(o["features"]) > 1 else []
+        else:
+            fs = [o["features"][0]]   # primary configuration of the obligation
+        for f in fs:
+            groups.setdefault((o["crate"], f, tuple(o["kani_flags"])), []).append(o)
     results = {}  # (name, feat) -> result
     solver_time = 0.0
     for (crate, feat, _flags), gl in sorted(groups.items()):
